@@ -39,7 +39,8 @@ def explore(ch, params, out):
     sym = params.get("symbolic_leaves", True)
     slots = [(i, key) for i in range(n) for key in keys]
     cfg = {"kinds": [dict() for _ in range(n)]}
-    shapes = [(k1, k2) for k1 in kinds for k2 in kinds]
+    kinds2 = params.get("second_kinds", kinds)
+    shapes = [(k1, k2) for k1 in kinds for k2 in kinds2]
     first = ch.choose(f"kinds({slots[0]},{slots[1]})", shapes, shard=True)
     for (i, key), kind in zip(slots[:2], first):
         cfg["kinds"][i][key] = kind
@@ -195,6 +196,75 @@ def scen_accept(ch, params, out):
         ld.close()
 
 
+def scen_cli_files(ch, params, out):
+    """The samples arrive as several files through the real CLI (one `-m` with a path pattern, one `-m` per file, or `-l` with
+    list files): every object of every file must be accepted by the printed model."""
+    import json
+    from vflib import clienv, oracles, pipeline
+    kinds = getattr(jsonsym, params.get("kinds", "KINDS_SMALL"))
+    k0, k1 = ch.choose("kinds(file0,file1)", [(a, b) for a in kinds for b in kinds], shard=True)
+    fk = [k0, k1]
+    if ch.flag("third_file"):
+        fk.append(ch.choose("kind(file2)", params.get("third_kinds", kinds)))
+    style = ch.choose("argument_style", ["pattern", "one_m_per_file", "list_pattern"])
+    reverse = ch.flag("listing_order_reversed")
+    fw = ch.choose("framework", params.get("frameworks", ["pydantic", "dataclasses"]))
+    samples = [jsonsym.sample(None, f"s{i}", {"a": k}, False) for i, k in enumerate(fk)]
+    names = [f"/vfs/d/f{i}.json" for i in range(len(fk))]
+    order = list(range(len(fk)))[::-1] if reverse else list(range(len(fk)))
+    fs = {}
+    for i in order:
+        fs[names[i]] = json.dumps([samples[i]] if style == "list_pattern" else samples[i])
+    if style == "pattern":
+        argv = ["-m", "Model", "/vfs/d/f?.json"]
+    elif style == "list_pattern":
+        argv = ["-l", "Model", "-", "/vfs/d/*.json"]
+    else:
+        argv = [x for i in order for x in ("-m", "Model", names[i])]
+    argv += ["-f", fw]
+    out.info = {"kinds": fk, "style": style, "reverse": reverse, "framework": fw, "samples": samples}
+    res = clienv.run_main(argv, fs)
+    ctx = lambda: f"files {[fs[n] for n in names]} argv {argv}"
+    if not out.check(res.status == 0, "cli_fails", lambda: f"{res.stderr[-300:]} ({ctx()})", "cli_fails"):
+        return
+    text = res.stdout
+    try:
+        ld = pipeline.load_module(text)
+    except Exception as e:
+        out.fail("module_does_not_load", f"{type(e).__name__}: {e}\n{text}", f"module_does_not_load:{type(e).__name__}:{fw}")
+        return
+    try:
+        rootcls = ld.classes.get("Model")
+        if not out.check(rootcls is not None, "root_class_missing", text, "root_class_missing"):
+            return
+        tables = {}
+
+        def table(cls):
+            if cls not in tables:
+                tables[cls] = pipeline.field_table(ld, cls, fw)
+            return tables[cls]
+        c = {"ld": ld, "framework": fw, "field_table": table, "keymap": lambda k: k}
+        for i, smp in enumerate(samples):
+            why = []
+            try:
+                ok = oracles.inhabits_typing(smp, rootcls, c, why)
+            except Exception as e:
+                ok = False
+                why.append(f"annotation does not evaluate: {type(e).__name__}: {e}")
+            out.check(ok, "emitted_rejects_sample", lambda: f"[cli/{fw}] object of file {i} {smp} not accepted by printed Model: {why} ({ctx()})\n{text}",
+                      f"emitted_rejects_sample:cli:{fw}")
+        if fw == "pydantic" and not out.failures:
+            try:
+                pipeline.pydantic_resolve_all(ld)
+                for smp in samples:
+                    rootcls.parse_obj(copy.deepcopy(smp))
+                out.checked += 1
+            except Exception as e:
+                out.fail("pydantic_parse_fails", f"[cli] {type(e).__name__}: {e} ({ctx()})\n{text}", f"pydantic_parse_fails:cli:{pydantic_cause(e, smp, text)}")
+    finally:
+        ld.close()
+
+
 def parts(tier):
     if tier == "quick":
         return [
@@ -215,6 +285,14 @@ def parts(tier):
             CH("two_nested_fields", "vflib.props.c01:scen_accept",
                {"kinds": "KINDS_NEST", "samples": 1, "keys": ["a", "b"], "merge": ["default", "p50n2"]},
                shards=16, timeout=170, path_timeout=30, mode="CH-P+CH-E"),
+            CH("cli_several_files", "vflib.props.c01:scen_cli_files", {"kinds": "KINDS_SMALL", "third_kinds": ["absent", "s_abc", "o_k"]},
+               shards=16, timeout=170, path_timeout=30, mode="CH-E"),
+            CH("key_reuse_shapes", "vflib.props.c01:scen_accept",
+               {"kinds": "KINDS_SHAPES", "samples": 2, "keys": ["a"], "frameworks": ["pydantic", "dataclasses"], "layouts": ["flat"],
+                "symbolic_leaves": False}, shards=16, timeout=170, path_timeout=30, mode="CH-E"),
+            CH("key_reuse_shape_lists", "vflib.props.c01:scen_accept",
+               {"kinds": "KINDS_SHAPE_LISTS", "samples": 1, "keys": ["a", "b"], "second_kinds": ["absent"], "frameworks": ["pydantic"], "layouts": ["flat"],
+                "symbolic_leaves": False}, shards=16, timeout=170, path_timeout=30, mode="CH-E"),
         ]
     T = dict(shards=16, timeout=400, path_timeout=30)
     return [
